@@ -410,7 +410,7 @@ func c33Candidate(r *vhRng, k *c33Kind) []byte {
 
 // c33Gen draws one case line: `dec <kind> <hex>` with at most 64KiB of declared byte strings, or
 // (1 in 12) `alloc <kind> <hex>` whose declared byte strings are either below 8KiB or one of them
-// is between 1MiB and 32MiB (so that the allocation class is unambiguous).
+// is between 1MiB and 3MiB (total at most 6MiB) (so that the allocation class is unambiguous).
 func c33Gen(r *vhRng, kinds []*c33Kind) string {
 	k := kinds[r.Intn(len(kinds))]
 	if r.Chance(1, 12) {
@@ -420,7 +420,7 @@ func c33Gen(r *vhRng, kinds []*c33Kind) string {
 				continue
 			}
 			if r.Bool() { // plant a large declared length somewhere
-				l := uint32(1<<20) + uint32(r.Intn(31<<20))
+				l := uint32(1<<20) + uint32(r.Intn(2<<20))
 				c := []byte{byte(l<<2) | 2, byte(l >> 6), byte(l >> 14), byte(l >> 22)}
 				p := r.Intn(len(in) + 1)
 				in = append(in[:p:p], append(c, in[p:]...)...)
@@ -429,7 +429,7 @@ func c33Gen(r *vhRng, kinds []*c33Kind) string {
 			if s <= 8<<10 {
 				return "alloc " + k.name + " " + vhHex(in)
 			}
-			if s >= 1<<20 && s <= 48<<20 {
+			if s >= 1<<20 && s <= 6<<20 {
 				// a successful decode would carry megabytes of zero fill into the dump: keep the
 				// failing ones (the allocation happens before the failure)
 				failed := vhCatch(func() string {
